@@ -21,7 +21,7 @@ MUTS = {
  'E7': (S+'doctest_example.py', "        # Clear the global namespace so doctests don't leak memory\n        self.global_namespace.clear()\n", '', ['C11'], 'namespace not cleared after a run'),
  'E14': (S+'doctest_example.py', "        self.logged_stdout.clear()\n        self._unmatched_stdout = []\n", "        self.logged_stdout.clear()\n", ['C11'], 'unmatched-output buffer not reset between runs of the same object'),
  'M7': (S+'static_analysis.py', "        if self._current_classname is None:\n            callname = node.name\n            self._current_classname = callname\n            docstr, doclineno, doclineno_end = self._get_docstring(node)", "        if True:\n            prev = self._current_classname\n            callname = node.name if prev is None else prev + '.' + node.name\n            self._current_classname = callname\n            docstr, doclineno, doclineno_end = self._get_docstring(node)", ['C07', 'C16'], 'nested classes collected'),
- 'S4': (S+'static_analysis.py', "                        # Ignore main block\n                        return\n                else:", "                        # Ignore main block\n                        pass\n                else:", ['C07', 'C16'], 'definitions under the __main__ guard collected'),
+ 'S4': (S+'static_analysis.py', "                        for child in node.orelse:\n                            self.visit(child)\n                        return\n                else:", "                        for child in node.orelse:\n                            self.visit(child)\n                        pass\n                else:", ['C07', 'C16'], 'definitions under the __main__ guard collected'),
  'E4': (S+'doctest_example.py', "                            found_lineno = sub_tb.tb_lineno\n                            break", "                            found_lineno = sub_tb.tb_lineno", ['C08', 'C09'], 'innermost instead of outermost doctest frame gives the failing line'),
  'C3raise': (S+'checker.py', "        # Reraise the error if the want message is formatted like an exception\n        raise\n", "        # Reraise the error if the want message is formatted like an exception\n        return True\n", ['C03'], 'exception with a non-traceback want swallowed'),
  'D_leak': (S+'directive.py', "        # Clear the previous inline state\n        self._inline_state.clear()\n", "        # Clear the previous inline state\n        self._inline_state.pop('SKIP', None)\n", ['C04'], 'inline overlay cleared for SKIP only'),
